@@ -2,7 +2,7 @@ use std::{
     fs,
     io::{self, Read, Write},
     os::unix::fs::PermissionsExt,
-    path::{Path, PathBuf},
+    path::{Component, Path, PathBuf},
     str::FromStr,
 };
 
@@ -120,9 +120,7 @@ impl Package {
 
         // pull every base directory name in the package and create the directory in advance
         for dir in dirs {
-            let dir_path = dest
-                .as_ref()
-                .join(Path::new(dir).strip_prefix("/").unwrap_or(dest.as_ref()));
+            let dir_path = contained_path(dest.as_ref(), Path::new(dir))?;
             fs::create_dir_all(&dir_path)?;
         }
 
@@ -130,12 +128,15 @@ impl Package {
         // instead of reading each file entirely into memory (while the archive is also entirely in memory) before writing them
         for file in self.files()? {
             let file = file?;
-            let file_path = dest.as_ref().join(
-                file.metadata
-                    .path
-                    .strip_prefix("/")
-                    .unwrap_or(dest.as_ref()),
-            );
+            let file_path = contained_path(dest.as_ref(), &file.metadata.path)?;
+            refuse_symlinks_on_the_way(dest.as_ref(), &file_path)?;
+            // whatever this entry is, it replaces a symbolic link of the same name instead of following it
+            if file_path
+                .symlink_metadata()
+                .is_ok_and(|m| m.file_type().is_symlink())
+            {
+                fs::remove_file(&file_path)?;
+            }
 
             let perms = fs::Permissions::from_mode(file.metadata.mode.permissions().into());
             match file.metadata.mode {
@@ -149,13 +150,17 @@ impl Package {
                     fs::set_permissions(&file_path, perms)?;
                 }
                 FileMode::SymbolicLink { .. } => {
-                    // broken symlinks (common for debuginfo handling) are perceived as not existing by "exists()"
-                    if file_path.exists() || file_path.symlink_metadata().is_ok() {
+                    if file_path.symlink_metadata().is_ok() {
                         fs::remove_file(&file_path)?;
                     }
                     std::os::unix::fs::symlink(&file.metadata.linkto, &file_path)?;
                 }
-                _ => unreachable!("Encountered an unknown or invalid FileMode"),
+                mode => {
+                    return Err(Error::InvalidFileMode {
+                        raw_mode: mode.raw_mode().into(),
+                        reason: "only regular files, directories and symbolic links can be extracted",
+                    });
+                }
             }
         }
 
@@ -468,6 +473,44 @@ impl Package {
 
         Ok(())
     }
+}
+
+/// Append a path from the package to the directory the package is extracted to.
+///
+/// The path is untrusted - it must not be able to point to anything outside of that directory.
+fn contained_path(dest: &Path, path: &Path) -> Result<PathBuf, Error> {
+    let mut contained = dest.to_path_buf();
+    for component in path.components() {
+        match component {
+            Component::RootDir | Component::CurDir => {}
+            Component::Normal(name) => contained.push(name),
+            Component::ParentDir | Component::Prefix(_) => {
+                return Err(Error::InvalidDestinationPath {
+                    path: path.to_string_lossy().to_string(),
+                    desc: "path would be extracted outside of the destination directory",
+                });
+            }
+        }
+    }
+    Ok(contained)
+}
+
+/// A symbolic link extracted earlier must not redirect a later entry out of the destination.
+fn refuse_symlinks_on_the_way(dest: &Path, path: &Path) -> Result<(), Error> {
+    let mut ancestor = path.parent();
+    while let Some(dir) = ancestor.filter(|dir| *dir != dest && dir.starts_with(dest)) {
+        if dir
+            .symlink_metadata()
+            .is_ok_and(|m| m.file_type().is_symlink())
+        {
+            return Err(Error::InvalidDestinationPath {
+                path: path.to_string_lossy().to_string(),
+                desc: "a parent directory of the path is a symbolic link",
+            });
+        }
+        ancestor = dir.parent();
+    }
+    Ok(())
 }
 
 #[derive(Clone, Debug, PartialEq)]
